@@ -76,6 +76,8 @@ def spawn(progs):
         env["PYTHONHASHSEED"] = str((int(env.get("PYTHONHASHSEED", "0")) + 1) % 4294967295)
     except ValueError:
         env["PYTHONHASHSEED"] = "1"
+    for v in ("OMP_NUM_THREADS", "OPENBLAS_NUM_THREADS", "MKL_NUM_THREADS"):
+        env.setdefault(v, "1")      # object arrays need no BLAS threads; idle thread pools cost seconds on a busy machine
     proc = subprocess.Popen([sys.executable, "-m", "ekw.c14_fresh"], stdin=fin, stdout=fout, stderr=subprocess.DEVNULL, env=env)
     return {"proc": proc, "fin": fin, "fout": fout, "n": len(progs)}
 
